@@ -26,6 +26,25 @@ def model_check(rep, tier, wd):
     rep.add_tlc("KeyNotation: EscapeMacro/Unescape round trip, all byte pairs", r)
 
 
+_amb = {}
+
+
+def esc_ambiguous(K):
+    """does the Vi script contain ESC directly followed by a key that continues an ESC-prefixed (Meta) sequence bound in the Vi
+    keymaps?  (typed, the two are told apart by timing; a replayed macro has no timing)"""
+    if "s" not in _amb:
+        amb = set()
+        for km in ("vi-insert", "vi-command", "vi"):
+            for b in default_binds()["keymaps"].get(km, []):
+                q = bytes.fromhex(b["seq"]).decode("utf-8", "replace")
+                if q and 0x80 <= ord(q[0]) <= 0xff:
+                    amb.add(ord(q[0]) - 0x80)
+                if len(q) >= 2 and q[0] == "\x1b":
+                    amb.add(ord(q[1]))
+        _amb["s"] = amb
+    return any(K[i] == 0x1b and K[i + 1] in _amb["s"] for i in range(len(K) - 1))
+
+
 def split_vi(ks):
     """deliver one key per read (typing)"""
     return [ks[i:i + 1] for i in range(len(ks))]
@@ -53,8 +72,16 @@ def run(rep, tier, seed):
             cs = {"id": "c18-%s-%d" % (style, ci), "inputrc": ("set editing-mode vi\n" if style == "vi" else "") + '"\\C-o": "xy "\n' + case_options(rng, ci, skip=("autocomplete", "keyseq-timeout")), "w": 80, "h": 24, "prompt": "> ",
                   "setups": [], "sessions": [], "wrap": "none"}
             ci += 1
+            # one case in four belongs to an application that accepts multi-line input: Return only ends the call when the line
+            # ends with ';' (never typed here), otherwise it inserts a newline - and is one more key of the macro
+            multi = ci % 4 == 0
+            if multi:
+                cs["multiline"] = ";"
             pairs = []
             for w in chunk:
+                if multi and rng.random() < 0.7:
+                    w = list(w)
+                    w.insert(rng.randint(0, len(w)), b"\r")
                 K = b"".join(w)
                 buf = rng.choice(["", "foo bar", "a (b) 'c' xyz"])
                 cur = rng.randint(0, len(buf))
@@ -101,7 +128,8 @@ def run(rep, tier, seed):
                             for ch in [trailer[i:i + 1] for i in range(len(trailer))]:
                                 sess.append(keys(ch))
                     sess.append({"k": "gate"})
-                pairs.append({"K": K.hex(), "buf": buf, "cur": cur, "style": style, "paste": paste, "other": other.hex(), "trailer": trailer.hex()})
+                pairs.append({"K": K.hex(), "buf": buf, "cur": cur, "style": style, "paste": paste, "other": other.hex(), "trailer": trailer.hex(),
+                              "escamb": style == "vi" and esc_ambiguous(K + trailer)})
             cases.append(cs)
             meta[cs["id"]] = pairs
     log("C18: %d macro scripts in %d cases" % (sum(len(v) for v in words.values()), len(cases)))
@@ -150,7 +178,7 @@ def run(rep, tier, seed):
     kfs = open_findings(rep.pid)
     for cid, (i, ln, raw, viol) in rejected.items():
         m = raw.get("meta", {}) if isinstance(raw, dict) else {}
-        hit = [kf for kf in kfs if "match" in kf and ln.get("ev") == "macro" and all(str(v) in str(m.get(f, "")) for f, v in kf["match"].items())]
+        hit = [kf for kf in kfs if "match" in kf and ln.get("ev") == "macro" and all(any(str(x) in str(m.get(f, "")) for x in (v if isinstance(v, list) else [v])) for f, v in kf["match"].items())]
         if hit:
             rep.known(hit[0]["id"], hit[0]["what"])
             continue
@@ -160,7 +188,7 @@ def run(rep, tier, seed):
     rep.rule = ("key scripts K: every word of <= %d items (sampled) plus seeded words of 4..8 items over {letters, quotes, backslash, C-a C-e C-k "
                 "C-y C-w C-t, ESC b/f/d/u, arrows, C-x C-x, DEL, digit argument, quoted-insert + argument; vi: motions, find + argument, counts, "
                 "operators, replace, insert groups}, in the emacs style (C-x ( K C-x ) C-x e) and the vi style (q<r> K q @<r>), from three start "
-                "buffers, typed per key and pasted, 40 in 100 followed at once by more keys (sharing a read with the replay command); non-trivial = distinct (style, K, start buffer) where K changes the buffer" % maxk)
+                "buffers (one case in four with a multi-line accept callback and Return among the keys), typed per key and pasted, 40 in 100 followed at once by more keys (sharing a read with the replay command); non-trivial = distinct (style, K, start buffer) where K changes the buffer" % maxk)
     rep.explanation = ("Macro.tla model-checks the recorder (nothing dropped or recorded twice, prefix iterations, argument keys); each K is run on "
                        "the real Shell typed twice and recorded+replayed from the same state, MacroTrace requires the same final buffer")
     rep.assumptions = ["macro keys are ASCII (a recorded non-ASCII character is fed back one truncated byte per rune: not claimed)",
